@@ -581,7 +581,7 @@ ForeignCall(op, m, own) ==
 \* a message cannot be addressed to a module of another (live) context
 ForeignTell(m) ==
     /\ Can("ForeignTell") /\ AtTop /\ Handle(m)
-    /\ S' = [S EXCEPT !.ret = IF S.mod[m].st = "zombie" \/ NoCtx THEN EPERMC ELSE NEG]
+    /\ S' = [S EXCEPT !.ret = NEG]
 
 (* ------------------------------ events retained by the program ------------------------------ *)
 \* inside a handler: m_mem_ref() on the i-th event of this invocation; it stays valid until released
